@@ -66,11 +66,11 @@ pub fn build_spec(property: &str, tier: &str, seed: u64) -> Option<Spec> {
             let phases: Vec<Box<dyn Phase>> = vec![
                 Box::new(c03::C03Search { docs: docs.clone(), runs: runs(2_000_000, 80_000_000, tier), max_items: 20_000 }),
                 Box::new(c03::C03CorpusBytes::new(docs)),
-                Box::new(c03::C03Deep { runs: if thorough { 400 } else { 40 }, thorough }),
+                Box::new(c03::C03Deep { runs: if thorough { 500 } else { 48 }, thorough }),
             ];
             Some(Spec {
                 property: "C03", level: "fault_enumeration", phases,
-                rule: "hostile-stream-search: seeded runs over corpus documents, generated documents, token soup, random characters and random bytes, through all 13 entry points x 4 option sets x 5 Parse targets, with 0-5 faults (Fail, End, Flip, BitFlip, Drop, Dup, Swap, Insert with foreign byte lengths, Resume = non-fused None, FailThenResume) and random length profiles; corpus-prefixes-and-byte-edits: every prefix and every single-byte substitution (all 256 values) of every corpus document <= 2 KiB through parse_slice*; deep-nesting-small-stack: child processes parsing (and, on success, traversing) nesting depths 10^3..2*10^6 of six shapes x eleven tails inside a 64/128/256 KiB thread. A case is one explicit stream scenario or deep scenario; distinct = distinct digest; non-trivial = a fault was delivered at or before the parser's last pull (stream phases) or depth >= 1000 (deep phase).".into(),
+                rule: "hostile-stream-search: seeded runs over corpus documents, generated documents, token soup, random characters and random bytes, through all 13 entry points x 4 option sets x 5 Parse targets, with 0-5 faults (Fail, End, Flip, BitFlip, Drop, Dup, Swap, Insert with foreign byte lengths, Resume = non-fused None, FailThenResume) and random length profiles; corpus-prefixes-and-byte-edits: every prefix and every single-byte substitution (all 256 values) of every corpus document <= 2 KiB through parse_slice*; deep-nesting-small-stack: child processes parsing (and, on success, traversing) nesting depths 10^3..2*10^6 of six shapes x fourteen tails inside a 64/128/256 KiB thread. A case is one explicit stream scenario or deep scenario; distinct = distinct digest; non-trivial = a fault was delivered at or before the parser's last pull (stream phases) or depth >= 1000 (deep phase).".into(),
                 assumptions: vec![
                     "oracle = Ok | Err, no panic (overflow checks and debug assertions on), bounded polling (stream watchdog at items + 10 000 polls), child exit status 0 for deep scenarios".into(),
                     "hangs that never touch the stream are caught by the supervisor's wall-clock limit only".into(),
@@ -167,6 +167,7 @@ pub fn main(args: &[String]) -> i32 {
 // worker: all phases in-process
 // ---------------------------------------------------------------------------------------------
 
+fn hang_flag_path(property: &str) -> String { format!("{}/{}.hang", report::state_dir(), property) }
 fn crumbs_path(property: &str) -> String { format!("{}/{}.crumbs", report::state_dir(), property) }
 
 fn known_matches(e: &KnownEntry, property: &str, check_id: &str, sc: &Scenario) -> bool {
@@ -357,10 +358,14 @@ fn run_child(args: &[&str], timeout: Duration, capture: bool) -> ChildEnd {
 fn supervisor(property: &str, tier: &str) -> i32 {
     let limit = Duration::from_secs(env_u64("VERIF_WALL_LIMIT_S").unwrap_or(if tier == "thorough" { 4 * 3600 } else { 1800 }));
     let _ = std::fs::remove_file(crumbs_path(property));
+    let _ = std::fs::remove_file(hang_flag_path(property));
+    std::env::set_var("VERIF_HANG_FLAG", hang_flag_path(property));
     let end = run_child(&["--worker", property, tier], limit, false);
     if !end.timed_out { if let Some(c) = end.code { return c; } }
     // the worker died on a signal or hung: find the culprit run
-    let what = if end.timed_out { format!("exceeded the wall-clock limit of {:?}", limit) } else { format!("died on signal {:?}", end.signal) };
+    // (the worker writes a flag and prints a HANG line before aborting when one run made no progress)
+    let hung = std::fs::read_to_string(hang_flag_path(property)).is_ok();
+    let what = if end.timed_out { format!("exceeded the wall-clock limit of {:?}", limit) } else if hung { "made no progress inside one run (hang) and was aborted by the watchdog".to_string() } else { format!("died on signal {:?}", end.signal) };
     println!("worker process {}; bisecting the open chunks in fresh child processes", what);
     let seed = crate::seed();
     let spec = match build_spec(property, tier, seed) { Some(s) => s, None => return 2 };
@@ -381,7 +386,7 @@ fn supervisor(property: &str, tier: &str) -> i32 {
             let fails = |s: &Scenario| replay_contained(property, s);
             let cands = |s: &Scenario| ph.map(|p| p.shrink_candidates(s)).unwrap_or_default();
             let msg = format!("process {} while executing this scenario (stack overflow, abort or hang inside the library)", what);
-            let out = shrink(sc, &check_id, msg, &cands, &fails, 300);
+            let out = shrink(sc, &check_id, msg, &cands, &fails, if end.timed_out || hung { 12 } else { 300 });
             let j = report::replay_json(property, &check_id, seed, tier, &phase, run, &out.scenario, &out.message, out.from_size, out.executions);
             let path = match report::write_replay(&j) { Ok(p) => p, Err(e) => { println!("HARNESS-ERROR: {}", e); return 2; } };
             match run_replay_process(&path) {
@@ -468,6 +473,9 @@ fn classify_inner(property: &str, e: &ChildEnd) -> Option<(String, String)> {
 
 fn replay_inner(file: &str) -> i32 {
     silent_panics();
+    // watchdog: a scenario that does not finish is a hang of the system under test
+    let limit = env_u64("VERIF_HANG_S").unwrap_or(20);
+    std::thread::spawn(move || { std::thread::sleep(Duration::from_secs(limit)); println!("HANG: scenario still running after {} s", limit); std::process::abort(); });
     let rf = match report::read_replay(file) { Ok(r) => r, Err(e) => { println!("HARNESS-ERROR: {}", e); return 2; } };
     match judge_scenario(&rf.property, &rf.scenario) {
         Ok(Some((id, msg))) => { println!("REPLAY check_id={} message={}", id, msg.replace('\n', " ")); 1 }
